@@ -13,7 +13,7 @@ import numpy as np
 import scipy.linalg
 import z3
 
-from . import sym
+from . import orth, sym
 from .sym import GVec, SBool, SNum, Unsupported, ctx
 
 
@@ -34,6 +34,10 @@ def _obj(a):
 
 
 def s_array(obj, dtype=None, *a, **kw):
+    if isinstance(obj, (orth.LState, orth.LVec, GVec)):
+        return obj
+    if isinstance(obj, (list, tuple)) and len(obj) == 3 and all(isinstance(e, GVec) for e in obj):
+        return sym.GFrame(obj)
     if has_sym(obj):
         if isinstance(obj, (SNum, SBool)):
             return obj
@@ -125,6 +129,8 @@ def s_eye(n, *a, **kw):
 
 
 def s_dot(a, b):
+    if isinstance(a, (orth.LMat, orth.LVec)) or isinstance(b, (orth.LVec, orth.LMat)):
+        return _ldot_or_mul(a, b)
     if isinstance(a, GVec) or isinstance(b, GVec):
         return sym.gdot(a, b)
     if has_sym(a) or has_sym(b):
@@ -132,7 +138,17 @@ def s_dot(a, b):
     return np.dot(a, b)
 
 
+def _ldot_or_mul(a, b):
+    if isinstance(a, orth.LVec) and isinstance(b, orth.LVec):
+        return orth.ldot(a, b)
+    if isinstance(a, orth.LMat):
+        return a._mul(b)
+    raise Unsupported("concrete matrix applied to an abstract vector")
+
+
 def s_vdot(a, b):
+    if isinstance(a, orth.LVec) and isinstance(b, orth.LVec):
+        return orth.ldot(a, b)
     if isinstance(a, GVec) or isinstance(b, GVec):
         return sym.gdot(a, b)
     if has_sym(a) or has_sym(b):
@@ -141,12 +157,18 @@ def s_vdot(a, b):
 
 
 def s_matmul(a, b):
+    if isinstance(a, sym.GFrame):
+        return a.apply(b)
+    if isinstance(a, (orth.LMat, orth.LVec)) or isinstance(b, (orth.LVec, orth.LMat)):
+        return _ldot_or_mul(a, b)
     if has_sym(a) or has_sym(b):
         return np.dot(_obj(a), _obj(b))
     return np.matmul(a, b)
 
 
 def s_norm(a, *args, **kw):
+    if isinstance(a, orth.LVec):
+        return sym.fn_sqrt(orth.ldot(a, a))
     if isinstance(a, GVec):
         return sym.gnorm(a)
     if has_sym(a):
@@ -158,10 +180,25 @@ def s_norm(a, *args, **kw):
 
 
 def s_cross(a, b):
+    if isinstance(a, GVec) and isinstance(b, GVec):
+        return sym.gcross(a, b)
+    if isinstance(b, orth.LVec):
+        return orth.skew_of(a)._mul(b)
+    if isinstance(a, orth.LVec):
+        return -(orth.skew_of(b)._mul(a))
     if has_sym(a) or has_sym(b):
         a, b = _obj(a), _obj(b)
         return np.array([a[1] * b[2] - a[2] * b[1], a[2] * b[0] - a[0] * b[2], a[0] * b[1] - a[1] * b[0]], dtype=object)
     return np.cross(a, b)
+
+
+def s_concatenate(arrs, axis=0, **kw):
+    arrs = list(arrs)
+    if len(arrs) == 2 and all(isinstance(a, (orth.LVec, GVec)) for a in arrs):
+        return orth.LState(arrs[0], arrs[1])
+    if any(has_sym(a) for a in arrs):
+        return np.concatenate([_obj(a) for a in arrs], axis=axis, **kw)
+    return np.concatenate(arrs, axis=axis, **kw)
 
 
 def s_clip(a, lo, hi):
@@ -457,7 +494,7 @@ def _reg(real, shim):
 for _r, _s in [
     (np.array, s_array), (np.asarray, s_asarray), (np.zeros, s_zeros), (np.ones, s_ones), (np.empty, s_empty),
     (np.full, s_full), (np.zeros_like, s_zeros_like), (np.ones_like, s_ones_like), (np.empty_like, s_empty_like),
-    (np.eye, s_eye), (np.dot, s_dot), (np.vdot, s_vdot), (np.matmul, s_matmul), (np.linalg.norm, s_norm),
+    (np.eye, s_eye), (np.concatenate, s_concatenate), (np.dot, s_dot), (np.vdot, s_vdot), (np.matmul, s_matmul), (np.linalg.norm, s_norm),
     (scipy.linalg.norm, s_norm), (np.cross, s_cross), (np.clip, s_clip), (np.around, s_around), (np.round, s_around),
     (np.where, s_where), (np.sum, s_sum), (np.any, s_any), (np.all, s_all), (np.isclose, s_isclose),
     (np.allclose, s_allclose), (np.array_equal, s_array_equal), (np.max, s_max), (np.amax, s_max), (np.min, s_min),
